@@ -68,8 +68,9 @@ func (e *Embed) GenerateOutput(textOnly bool) string {
 	// TODO: Maybe just to be save we should sanitize it.
 	tagName := dom.TagName(e.Element)
 	if tagName == "blockquote" || tagName == "iframe" {
-		// Scripts and styles nested inside the embedded element are never part of the output.
-		dom.RemoveNodes(dom.QuerySelectorAll(e.Element, "script,style"), nil)
+		// Scripts and styles nested inside the embedded element are never part of the output,
+		// and neither are other frames or plugins (only the embedded element itself is allow-listed).
+		dom.RemoveNodes(dom.QuerySelectorAll(e.Element, "script,style,iframe,object,embed,applet"), nil)
 		domutil.StripAttributes(e.Element)
 		dom.AppendChild(embed, e.Element)
 	}
